@@ -394,9 +394,13 @@ def DECIMAL(text, base):
     base = utils.parse_integer(base)
     if isinstance(base, error.XLError):
         return base
+    if not isinstance(base, int) or not 2 <= base <= 36:
+        # int() would take radix 0 for "guess from the prefix"
+        return error.NUM
     try:
-        dec = int(text, base)
-        return (dec - 1099511627776) if (dec >= 549755813888) else dec
+        # the number the text spells in that radix; the 40-bit two's complement of the
+        # hexadecimal functions has no business here (DECIMAL(BASE(2^39,2),2) was -2^39)
+        return int(text, base)
     except ValueError:
         return error.VALUE
 
